@@ -17,6 +17,9 @@ type Config struct {
 	FollowCtx func(callee *types.Func, locks []Held) bool
 	// EmitAccess makes the walker emit KAccess events for variable reads and writes.
 	EmitAccess bool
+	// SharedFacts keeps branch decisions and stored values of shared state as path facts also where no
+	// lock is held (for walks of a single helper whose caller holds the lock: contradiction rules)
+	SharedFacts bool
 	MaxDepth   int // inlining bound (default 6)
 	MaxPaths   int // per-entry path cap (default 60000)
 	Unroll     int // loop unrolling (default 2)
